@@ -17,12 +17,15 @@ def kfLibFlags (c : LibCfg) : List (String × LibCfg) :=
 
 /-- `classify` for the hand-written runtime (defect switches in `LibCfg`). -/
 def classifyL {α : Type} [BEq α] (st : St) (model : LibCfg → α) (accepts0 : α → Bool) (impl : α) (sh : α → String)
-    (isPanic : α → Bool) : String :=
+    (isPanic : α → Bool) (nilPanicClass : Option String := none) : String :=
   let cfg := st.lib
   let accepts (o : α) : Bool := if st.mode == "nopanic" then !isPanic o else accepts0 o
   let m := model cfg
   if impl == m then
-    if accepts m then "agree"
+    -- nil pointers on the way (map[string]any trees): outside C18, a listed finding for C02
+    if isPanic m && nilPanicClass.isSome then
+      (if st.mode == "nopanic" then "known " ++ nilPanicClass.getD "" else "agree")
+    else if accepts m then "agree"
     else
       let cls := (kfLibFlags cfg).filter (fun (_, c') => !(model c' == m))
       if !cls.isEmpty then "known " ++ ",".intercalate (cls.map (·.1))
@@ -324,3 +327,302 @@ def staticOpReset (st : St) (srcToks outToks : List String) : String :=
        classifyL st (fun c => norm (model c)) acc (norm impl) showSObs (fun o => o.tag == "panic")
      | none => "skip unparsable-outcome")
   | none => "skip unresolved-input"
+
+/-! ### StringAnyMapInspector -/
+
+def srcOfLeaf (shape : String) (toks : List String) : Option (Src × List String) :=
+  let isPtr := shape.startsWith "*"
+  let kname := if isPtr then (shape.drop 1).toString else shape
+  let kname := if kname == "Y" then "[]byte" else kname
+  let k := DynKind.ofName kname
+  if k == .foreign then none else
+  if isPtr then
+    match toks with
+    | "Pn" :: rest => some ({ kind := k, isPtr := true, v := .nilptr }, rest)
+    | "P" :: t :: rest => (parseVal [t]).map fun (v, _) => ({ kind := k, isPtr := true, v := v }, rest)
+    | _ => none
+  else
+    match toks with
+    | t :: rest => (parseVal [t]).map fun (v, _) => ({ kind := k, isPtr := false, v := v }, rest)
+    | [] => none
+
+mutual
+/-- An `any` as the harness prints it: `An` | `A <shape> <value…>`. -/
+partial def parseJ : List String → Option (JVal × List String)
+  | "An" :: rest => some (.nil, rest)
+  | "A" :: shape :: rest =>
+    if shape == "M[string]any" then (parseJMap 0 rest)
+    else if shape == "*M[string]any" then
+      (match rest with
+       | "Pn" :: r => some (.map 1 1 true [] [], r)
+       | "P" :: r => parseJMap 1 r
+       | _ => none)
+    else if shape == "**M[string]any" then
+      (match rest with
+       | "Pn" :: r => some (.map 2 1 true [] [], r)
+       | "P" :: "Pn" :: r => some (.map 2 2 true [] [], r)
+       | "P" :: "P" :: r => parseJMap 2 r
+       | _ => none)
+    else
+      (match srcOfLeaf shape rest with
+       | some (s, r) => some (.leaf s, r)
+       | none =>
+         -- anything else: a single-token value by construction of the harness
+         (match rest with
+          | _ :: r => some (.other, r)
+          | [] => none))
+  | _ => none
+partial def parseJMap (hold : Nat) : List String → Option (JVal × List String)
+  | "Mn" :: rest => some (.map hold 0 true [] [], rest)
+  | tok :: rest =>
+    if !tok.startsWith "M" then none else do
+    let n ← (tok.drop 1).toString.toNat?
+    let rec go (k : Nat) (ks : List Bytes) (vs : List JVal) (toks : List String) : Option (List Bytes × List JVal × List String) :=
+      if k == 0 then some (ks.reverse, vs.reverse, toks) else
+      match toks with
+      | kt :: toks' => do
+        let key ← bytesOfHex (kt.drop 1).toString
+        let (v, toks'') ← parseJ toks'
+        go (k - 1) (key :: ks) (v :: vs) toks''
+      | [] => none
+    let (ks, vs, rest') ← go n [] [] rest
+    pure (.map hold 0 false ks vs, rest')
+  | [] => none
+end
+
+mutual
+partial def showJ : JVal → String
+  | .nil => "nil"
+  | .other => "other"
+  | .leaf s => (if s.isPtr then "*" else "") ++ s.kind.name ++ ":" ++ showVal s.v
+  | .map h n mn ks vs => s!"map{h}/{n}/{if mn then 1 else 0}" ++ "{" ++ " ".intercalate ((ks.zip vs).map fun (k, v) => hexOfBytes k ++ "=" ++ showJ v) ++ "}"
+end
+
+/-- The root as an `any` in holding form `f` around the parsed map. -/
+def rootJ (f : Form) (m : JVal) : JVal :=
+  match f, m with
+  | .val, .map _ _ mn ks vs => .map 0 0 mn ks vs
+  | .ptr, .map _ _ mn ks vs => .map 1 0 mn ks vs
+  | .ptrptr, .map _ _ mn ks vs => .map 2 0 mn ks vs
+  | .nilPtr, _ => .map 1 1 true [] []
+  | .ptrNilPtr, _ => .map 2 2 true [] []
+  | .untypedNil, _ => .nil
+  | _, _ => .other
+
+def parseKeys : List String → Option (List Bytes)
+  | n :: rest => do
+    let cnt ← n.toNat?
+    let ks ← (rest.take cnt).mapM fun t => bytesOfHex (t.drop 1).toString
+    pure ks
+  | [] => none
+
+structure StJ where
+  trees : Std.HashMap String JVal := {}
+
+/-- JG <form> <vid> | <keys> | <mut> nilany | node <any> | unsupported | panic -/
+def samapOpGet (st : St) (trees : Std.HashMap String JVal) (head pathToks outToks : List String) : String :=
+  match head, outToks with
+  | [_, form, vid], mutF :: out =>
+    (match trees[vid]?, parseForm form, parseKeys pathToks with
+     | some m, some f, some p =>
+       if mutF == "1" then "dev-viol read-operation-modified-its-argument" else
+       let j := rootJ f m
+       let impl : Option JGet := match out with
+         | ["nilany"] => some .none
+         | ["unsupported"] => some .unsupported
+         | ["panic"] => some .panic
+         | "node" :: rest => (parseJ rest).map fun (x, _) => JGet.node x
+         | _ => none
+       let norm (o : JGet) : JGet := match o with | .node .nil => .none | x => x
+       let beq (a b : JGet) : Bool := match norm a, norm b with
+         | .node x, .node y => jeq x y
+         | .none, .none | .unsupported, .unsupported | .panic, .panic => true
+         | _, _ => false
+       let sh (o : JGet) : String := match o with
+         | .node x => "node " ++ showJ x | .none => "none" | .unsupported => "unsupported" | .panic => "panic"
+       (match impl with
+        | some impl =>
+          let _ : BEq JGet := ⟨beq⟩
+          let acc (o : JGet) : Bool :=
+            match jnav j p with
+            | .found .nil => (match norm o with | .none => true | _ => false)
+            | _ => samapGetAccepts j p o
+          classifyL st (fun _ => samapGet j p) acc impl sh (fun o => match o with | .panic => true | _ => false) (some "samap-nil-ptr-panics")
+        | none => "skip unparsable-outcome")
+     | _, _, _ => "skip unresolved-input")
+  | _, _ => "skip bad-record"
+
+instance : BEq JLc := ⟨fun a b => decide (a = b)⟩
+def showJLc : JLc → String
+  | .untouched => "untouched" | .val n => s!"val{n}" | .unsupported => "unsupported" | .panic => "panic"
+
+def samapOpLC (st : St) (trees : Std.HashMap String JVal) (head pathToks fnToks outToks : List String) : String :=
+  match head, fnToks, outToks with
+  | [_, form, vid], [fn], [outTok] =>
+    (match trees[vid]?, parseForm form, parseKeys pathToks, parseLcOut outTok with
+     | some m, some f, some p, some impl0 =>
+       let j := rootJ f m
+       let impl : JLc := match impl0 with
+         | .untouched => .untouched | .val n => .val n | .unsupported => .unsupported | .panic => .panic | .err => .unsupported
+       let isCap := fn == "cap"
+       classifyL st (fun c => if isCap then samapCap c j p else samapLen j p) (samapLcAccepts isCap j p) impl showJLc (fun o => o == .panic) (some "samap-nil-ptr-panics")
+     | _, _, _, _ => "skip unresolved-input")
+  | _, _, _ => "skip bad-record"
+
+def samapOpCmp (st : St) (trees : Std.HashMap String JVal) (head pathToks argToks outToks : List String) : String :=
+  match head, argToks, outToks with
+  | [_, form, vid], [opTok, rightTok], [outTok, e] =>
+    (match trees[vid]?, parseForm form, parseKeys pathToks, opTok.toInt?, parseSeg rightTok, parseCmpOut outTok with
+     | some m, some f, some p, some op, some right, some impl =>
+       if right.pf == .inexact then "skip inexact-operand" else
+       let j := rootJ f m
+       let _ : BEq (CmpOut × Bool) := ⟨fun a b => a.1 == b.1 && a.2 == b.2⟩
+       classifyL st (fun c => samapCmp c j p op right) (samapCmpAccepts j p op right) (impl, e == "1")
+         (fun o => showCmpOut o.1 ++ (if o.2 then " unsupported" else "")) (fun o => o.1 == .panic) (some "samap-nil-ptr-panics")
+     | _, _, _, _, _, _ => "skip unresolved-input")
+  | _, _, _ => "skip bad-record"
+
+/-- The map a root `any` leads to, re-read from the harness' root tokens (always printed as a plain map). -/
+def samapOpSet (st : St) (trees : Std.HashMap String JVal) (head pathToks srcToks outToks : List String) : String :=
+  match head with
+  | [_, form, vid] =>
+    (match trees[vid]?, parseForm form, parseKeys pathToks, parseSrc srcToks with
+     | some m, some f, some p, some src =>
+       let j := rootJ f m
+       let reroot (x : JVal) : JVal := match x, j with
+         | .map _ _ mn ks vs, .map h n _ _ _ => .map h n mn ks vs
+         | x, _ => x
+       let impl : Option JSet := match outToks with
+         | ["panic"] => some .panic
+         | "ok" :: rest => (parseJMap 0 rest).map fun (x, _) => JSet.ok (reroot x)
+         | "unsupported" :: rest => (parseJMap 0 rest).map fun (x, _) => JSet.unsupported (reroot x)
+         | _ => none
+       let beq (a b : JSet) : Bool := match a, b with
+         | .ok x, .ok y => jeq x y
+         | .unsupported x, .unsupported y => jeq x y
+         | .panic, .panic => true
+         | _, _ => false
+       let sh (o : JSet) : String := match o with
+         | .ok x => "ok " ++ showJ x | .unsupported x => "unsupported " ++ showJ x | .panic => "panic"
+       (match impl with
+        | some impl =>
+          let _ : BEq JSet := ⟨beq⟩
+          -- nil-pointer and foreign roots: the model's root is not a map; compare on the outcome class only
+          let model : JSet := match j with
+            | .map _ 0 _ _ _ => samapSet j p src
+            | .map _ _ _ _ _ => if p.isEmpty then .ok (reroot m) else .panic
+            | _ => if p.isEmpty then .ok (reroot m) else .unsupported (reroot m)
+          let acc (o : JSet) : Bool := match j with
+            | .map _ 0 _ _ _ => samapSetAccepts j p src o
+            | .map _ _ _ _ _ => true
+            | _ => (match o with | .unsupported x | .ok x => jeq x (reroot m) | .panic => false)
+          let fix (o : JSet) : JSet := match j, o with
+            | .map _ 0 _ _ _, x => x
+            | _, .ok _ => .ok (reroot m)
+            | _, .unsupported _ => .unsupported (reroot m)
+            | _, x => x
+          classifyL st (fun _ => fix model) acc (fix impl) sh (fun o => match o with | .panic => true | _ => false)
+            (if src.v.isNilPtr then some "assign-nil-src" else some "samap-nil-ptr-panics")
+        | none => "skip unparsable-outcome")
+     | _, _, _, _ => "skip unresolved-input")
+  | _ => "skip bad-head"
+
+/-- JP <form> <vid> | copy|copyto | ok <shared> <same> <map> | unsupported | panic -/
+def samapOpCopy (st : St) (trees : Std.HashMap String JVal) (head viaToks outToks : List String) : String :=
+  match head, viaToks with
+  | [_, form, vid], [via] =>
+    (match trees[vid]?, parseForm form with
+     | some m, some f =>
+       let j := rootJ f m
+       let impl : Option (String × Nat × Option JVal) := match outToks with
+         | "ok" :: sh :: same :: rest => (parseJMap 0 rest).bind fun (x, _) => sh.toNat?.map fun s => ((if same == "1" then "ok" else "ok-src-changed"), s, some x)
+         | [t] => some (t, 0, none)
+         | _ => none
+       let model : String × Nat × Option JVal :=
+         match j with
+         | .map _ 0 mn ks vs =>
+           if mn then ("ok", 0, some (.map 0 0 false (if via == "copy" then [] else [strBytes "stale"]) (if via == "copy" then [] else [.leaf { kind := .int, v := .int 1 }])))
+           else (match samapCpy (.map 0 0 false ks vs) with
+                 | some (c, s) => ("ok", s, some c)
+                 | none => ("panic", 0, none))
+         | .map _ _ _ _ _ => ("panic", 0, none)
+         | _ => ("unsupported", 0, none)
+       let _ : BEq (String × Nat × Option JVal) := ⟨fun a b => a.1 == b.1 && a.2.1 == b.2.1 && (match a.2.2, b.2.2 with
+         | some x, some y => jeq x y | none, none => true | _, _ => false)⟩
+       let acc (o : String × Nat × Option JVal) : Bool := match j, o with
+         | .map _ 0 false ks vs, ("ok", s, some c) => s ≤ ptrLeafCount (.map 0 0 false ks vs) && jeq (.map 0 0 false ks vs) c   -- equal tree, nothing (in the quantified trees) shared
+         | .map _ 0 true _ _, ("ok", _, _) => true
+         | .map _ 0 _ _ _, _ => false
+         | .map _ _ _ _ _, _ => true
+         | _, (t, _, _) => t == "unsupported"
+       (match impl with
+        | some impl => classifyL st (fun _ => model) acc impl (fun o => o.1 ++ s!" {o.2.1} " ++ (o.2.2.map showJ).getD "-") (fun o => o.1 == "panic") (some "samap-nil-ptr-panics")
+        | none => "skip unparsable-outcome")
+     | _, _ => "skip unresolved-input")
+  | _, _ => "skip bad-record"
+
+/-- JR <form> <vid> | ok <map> | panic -/
+def samapOpReset (st : St) (trees : Std.HashMap String JVal) (head outToks : List String) : String :=
+  match head with
+  | [_, form, vid] =>
+    (match trees[vid]?, parseForm form with
+     | some m, some f =>
+       let impl : Option (Option JVal) := match outToks with
+         | ["panic"] => some none
+         | "ok" :: rest => (parseJMap 0 rest).map fun (x, _) => some x
+         | _ => none
+       let emptied : JVal := match m with | .map _ _ mn _ _ => .map 0 0 mn [] [] | x => x
+       let model : Option JVal := match f with
+         | .ptr | .ptrptr => some emptied
+         | .nilPtr | .ptrNilPtr => none
+         | _ => some (match m with | .map _ _ mn ks vs => .map 0 0 mn ks vs | x => x)
+       let _ : BEq (Option JVal) := ⟨fun a b => match a, b with | some x, some y => jeq x y | none, none => true | _, _ => false⟩
+       let acc (o : Option JVal) : Bool := match f, o with
+         | .ptr, some (.map _ _ _ ks _) | .ptrptr, some (.map _ _ _ ks _) => ks.isEmpty
+         | .nilPtr, _ | .ptrNilPtr, _ => true
+         | _, some x => jeq x (match m with | .map _ _ mn ks vs => .map 0 0 mn ks vs | x => x)
+         | _, none => false
+       (match impl with
+        | some impl => classifyL st (fun _ => model) acc impl (fun o => (o.map showJ).getD "panic") (fun o => o.isNone) (some "samap-nil-ptr-panics")
+        | none => "skip unparsable-outcome")
+     | _, _ => "skip unresolved-input")
+  | _ => "skip bad-head"
+
+/-- JO <form> <vid> | <keys> | <wantkey> <ctl> | <fin> <n> | group … (order is free: compared as multisets) -/
+def samapOpLoop (st : St) (trees : Std.HashMap String JVal) (parts : List (List String)) : String :=
+  match parts with
+  | [_, form, vid] :: pathToks :: [wk, ck] :: [fin, _cnt] :: groupToks =>
+    (match trees[vid]?, parseForm form, parseKeys pathToks with
+     | some m, some f, some p =>
+       let j := rootJ f m
+       let sc : LoopScript := { wantKey := [wk == "1"], ctl := ck.toList.map (fun c => c.toNat - 48) }
+       -- the node the path leads to
+       let target : Option (List Bytes × List JVal) × String :=
+         match samapGet j p with
+         | .node (.map _ 0 _ ks vs) => (some (ks, vs), "done")
+         | .node (.map _ _ _ _ _) => (none, "panic")
+         | .node _ => (none, "unsupported")
+         | .none => (none, "done")
+         | .unsupported => (none, "unsupported")
+         | .panic => (none, "panic")
+       let n := match target.1 with | some (ks, _) => ks.length | none => 0
+       let want := expectedCount sc n
+       -- each observed group: key text (if wanted) names an entry; every entry at most once
+       let keysSeen : List (Option Bytes) := groupToks.map fun g => match g with
+         | k :: _ => if k == "-" then none else (parseSeg k).map (·.text)
+         | [] => none
+       let okGroups : Bool := match target.1 with
+         | some (ks, _) =>
+           groupToks.length == want &&
+           (if wk == "1" then keysSeen.all (fun k => match k with | some t => ks.contains t | none => false) &&
+                              (keysSeen.eraseDups.length == keysSeen.length)
+            else keysSeen.all (·.isNone)) &&
+           groupToks.all (fun g => g.getD 1 "" == "static")
+         | none => groupToks.isEmpty
+       let agree := okGroups && fin == target.2
+       if st.mode == "nopanic" then (if fin == "panic" then (if target.2 == "panic" then "known samap-nil-ptr-panics" else "dev-viol panic") else "agree")
+       else if agree then
+         "agree"
+       else "dev-viol loop " ++ fin ++ s!" groups={groupToks.length} expected={want} {target.2}"
+     | _, _, _ => "skip unresolved-input")
+  | _ => "skip bad-record"
